@@ -9,7 +9,7 @@ import z3
 from pyvc.contracts import Any, Bool, Const, ExtSpec, ExtT, Int, ListOfT, LoopSpec, MapT, ObjT, OptT, Str
 from pyvc.values import ClassRef, Opaque, Opt, Ref
 
-from .a_tasks import calls, exts, flat, index_of, trivial_loop
+from .a_tasks import calls, exts, flat, index_of, trivial_loop, only_propagates
 
 B = z3.BoolVal
 MG, UT = 's3transfer.manager', 's3transfer.utils'
@@ -133,7 +133,7 @@ def register(R):
     R.contract(
         f'{TM}.download', props=['C15', 'C18', 'C08', 'C02', 'C13'],
         params=dict(bucket=ExtT('str'), key=ExtT('str'), fileobj=ExtT('fileobj_or_name'), extra_args=OptT(EXTRA), subscribers=SUBS),
-        checks=download_checks, raises={'Exception': lambda c: {}}, top_level=True,
+        checks=download_checks, raises={'Exception': only_propagates}, top_level=True,
     )
 
     def delete_checks(c):
@@ -144,7 +144,7 @@ def register(R):
     R.contract(
         f'{TM}.delete', props=['C15', 'C18', 'C08'],
         params=dict(bucket=ExtT('str'), key=ExtT('str'), extra_args=OptT(EXTRA), subscribers=SUBS),
-        checks=delete_checks, raises={'Exception': lambda c: {}}, top_level=True,
+        checks=delete_checks, raises={'Exception': only_propagates}, top_level=True,
     )
 
 
@@ -165,6 +165,6 @@ def register(R):
         f'{TM}.copy', props=['C15', 'C18', 'C08', 'C01'],
         params=dict(copy_source=ExtT('copy_source'), bucket=ExtT('str'), key=ExtT('str'), extra_args=OptT(EXTRA), subscribers=SUBS,
                     source_client=OptT(ExtT('client'))),
-        checks=copy_checks, raises={'Exception': lambda c: {}}, top_level=True,
+        checks=copy_checks, raises={'Exception': only_propagates}, top_level=True,
     )
     R.external('copy_source', get=ExtSpec(returns=ExtT('str'), pure=True))
